@@ -346,6 +346,93 @@ func BuildCorpus(rng *Rand, thorough bool) (seeds []*Seed, notes []string) {
 		d = try("xhtj2k", func() ([]byte, error) { return jpeg2000.NewEncoder(&q).Encode(px) })
 		add(fmt.Sprintf("xhtj2k-%dx%dx1-b8-rev-L0", g.w, g.h), famJ2K, []string{"jpeg2000.Decoder.Decode+HT", "codec[.201].Decode", "jpeg2000.Decoder.Decode"}, d, fiFor(g.w, g.h, 1, 8, false))
 	}
+	// ---- JPEG 2000 Part 2 multi-component streams (MCT / MCC / MCO marker segments)
+	identity := func(n int) [][]float64 {
+		m := make([][]float64, n)
+		for i := range m {
+			m[i] = make([]float64, n)
+			m[i][i] = 1
+		}
+		return m
+	}
+	p2Home := []string{"jpeg2000.Decoder.Decode", "codec[.92].Decode", "codec[.93].Decode", "jpeg2000.Decoder.Decode+HT"}
+	for gi, g := range []geom{{8, 8}, {5, 3}} {
+		for _, comps := range []int{2, 3, 4} {
+			ids := make([]uint16, comps)
+			offs := make([]int32, comps)
+			for i := range ids {
+				ids[i], offs[i] = uint16(i), int32(i+1)
+			}
+			px := makePixels(rng, g.w, g.h, comps, 8, gi+comps)
+			// lower-triangular integer matrix and its inverse (reversible)
+			tri, triInv := identity(comps), identity(comps)
+			tri[1][0], triInv[1][0] = 1, -1
+			type variant struct {
+				name string
+				set  func(p *jpeg2000.EncodeParams)
+			}
+			vs := []variant{
+				{"revint-off", func(p *jpeg2000.EncodeParams) {
+					p.MCTBindings = []jpeg2000.MCTBindingParams{{ComponentIDs: ids, Matrix: tri, Inverse: triInv, Offsets: offs, ElementType: 0, MCOPrecision: 1}}
+				}},
+				{"float", func(p *jpeg2000.EncodeParams) {
+					p.Lossless = false
+					p.MCTBindings = []jpeg2000.MCTBindingParams{{ComponentIDs: ids, Matrix: identity(comps), ElementType: 1}}
+				}},
+				{"offsets-only", func(p *jpeg2000.EncodeParams) {
+					p.MCTBindings = []jpeg2000.MCTBindingParams{{ComponentIDs: ids, Matrix: identity(comps), Offsets: offs}}
+				}},
+				{"legacy-matrix", func(p *jpeg2000.EncodeParams) {
+					p.MCTMatrix, p.InverseMCTMatrix, p.MCTOffsets, p.MCTReversible, p.MCTMatrixElementType = tri, triInv, offs, true, 0
+				}},
+			}
+			if comps == 4 {
+				vs = append(vs, variant{"two-collections-mco", func(p *jpeg2000.EncodeParams) {
+					p.MCTBindings = []jpeg2000.MCTBindingParams{
+						{ComponentIDs: []uint16{0, 1}, Matrix: identity(2), Offsets: []int32{1, 2}},
+						{ComponentIDs: []uint16{2, 3}, Matrix: identity(2), Offsets: []int32{3, 4}},
+					}
+					p.MCORecordOrder = []uint8{6, 3}
+				}})
+			}
+			for _, v := range vs {
+				p := jpeg2000.DefaultEncodeParams(g.w, g.h, comps, 8, false)
+				p.NumLevels = 1
+				v.set(p)
+				d := try("part2", func() ([]byte, error) { return jpeg2000.NewEncoder(p).Encode(px) })
+				add(fmt.Sprintf("xmct-%dx%dx%d-%s", g.w, g.h, comps, v.name), famJ2K, p2Home, d, fiFor(g.w, g.h, comps, 8, false))
+			}
+		}
+	}
+	// the .92 / .93 registry codecs with Part 2 parameters
+	for _, short := range []string{".92", ".93"} {
+		for ti, t := range tsTable {
+			if t.short != short {
+				continue
+			}
+			c, ok := dcodec.GetGlobalRegistry().GetCodec(tsTable[ti].ts())
+			if !ok {
+				continue
+			}
+			fi := fiFor(8, 8, 3, 8, false)
+			px := makePixels(rng, 8, 8, 3, 8, 1)
+			var out []byte
+			pn, msg := Safely(func() {
+				params := c.GetDefaultParameters()
+				params.SetParameter("mctBindings", []jpeg2000.MCTBindingParams{{ComponentIDs: []uint16{0, 1, 2}, Matrix: identity(3), Offsets: []int32{1, 2, 3}}})
+				src := helpers.NewTestPixelData(fi.frameInfo())
+				_ = src.AddFrame(px)
+				dst := helpers.NewTestPixelData(fi.frameInfo())
+				if err := c.Encode(src, dst, params); err == nil && dst.FrameCount() > 0 {
+					out, _ = dst.GetFrame(0)
+				}
+			})
+			if pn {
+				notes = append(notes, "encoder panic while building corpus: codec "+short+" part 2: "+msg)
+			}
+			add("xmct-codec"+short+"-8x8x3-bindings", famJ2K, []string{"codec[" + short + "].Decode", "jpeg2000.Decoder.Decode", "codec[.92].Decode"}, out, fi)
+		}
+	}
 	// ---- every registered codec's own Encode (default parameters) on a few geometries
 	for ti, t := range tsTable {
 		c, ok := dcodec.GetGlobalRegistry().GetCodec(t.ts())
